@@ -192,7 +192,11 @@ def runProg {σ} (env : Env) (c : UInt8) : Prog σ → Sc σ → Tail σ
     else
       match env.lenAt kind s.cur.toNat with
       | .err m i => .fault (.err (.oracle m) (s.cur + i))
-      | .len n => runProg env c k (if n > 0 then { s with cur := s.cur + (n - 1 : Nat) } else s)
+      | .len n =>
+        -- A_len: `Len()` measures a prefix of the rest of the file, so the extent ends inside the file;
+        -- an answer that does not is treated as an error of the oracle (it cannot come from the library)
+        if s.cur + n > env.size then .fault (.err (.oracle "schema extent beyond the end of the file") s.cur)
+        else runProg env c k (if n > 0 then { s with cur := s.cur + (n - 1 : Nat) } else s)
   | .ite cnd t e, s =>
     match evalCond env s c cnd with
     | none => .fault (.panic "index out of range in condition")
